@@ -249,7 +249,10 @@ class PostOffice:
             msg = next(self._producers[topic])
         except StopIteration:
             for sub_topic in self._multi_output_topics.get(topic, [topic]):
-                self._ack_topic_exhausted(sub_topic)
+                # sub_topic not in self._multi_output_topics means
+                # it already has a loader (as producer), which exhausts it
+                if sub_topic == topic or sub_topic in self._multi_output_topics:
+                    self._ack_topic_exhausted(sub_topic)
             # reraise to end the generator in _read
             raise StopIteration
 
